@@ -76,7 +76,9 @@ pub fn comparison_days(exprs: &[&OpeningHoursExpression], hol: &HolSpec, r: &mut
             days.push(start + Duration::days(k));
         }
     }
-    days.retain(|d| dates::in_range(*d));
+    // 1900-01-01 is left out: what spills over from 1899-12-31 (a day outside the supported range
+    // that year-less selectors still match) is not settled by any source (DESIGN.md section 5)
+    days.retain(|d| dates::in_range(*d) && *d != dates::min_day());
     days.sort();
     days.dedup();
     days
